@@ -1,6 +1,7 @@
 package harness
 
 import (
+	"bytes"
 	"fmt"
 	"os"
 	"path/filepath"
@@ -581,6 +582,8 @@ func (e *Exec) step(op Op) {
 		e.doBatch(op.B)
 	case "bigkv":
 		e.doBigKV(op)
+	case "getErr":
+		e.doGetErr(op)
 	case "verify":
 		e.checkColl("verify")
 	case "notify":
@@ -639,6 +642,32 @@ func (e *Exec) step(op Op) {
 	default:
 		panic("unknown op " + op.Kind)
 	}
+}
+
+// doGetErr: a batch with one Merge operation, then a Collection.Get of that key
+// during which the application's operator refuses: the read fails, everything
+// else (open snapshots in particular) stays as it is.
+func (e *Exec) doGetErr(op Op) {
+	if !e.collOpen || !e.opts.MergeOp || op.B == nil || len(op.B.Ops) == 0 {
+		return
+	}
+	e.doBatch(op.B)
+	key := op.B.Ops[0].K
+	mergeRefuseTask = simrt.Cur()
+	v, err := e.coll.Get(key, moss.ReadOptions{})
+	mergeRefuseTask = nil
+	e.out.Checks++
+	if err == nil {
+		// no operand left to resolve (cannot happen right after a Merge): then
+		// the value must be the right one
+		want := e.hist.Last().KV[string(key)]
+		if !bytes.Equal(v, want) {
+			e.failD("content-mismatch", map[string]string{"symptom": "stale", "where": "collection-get"},
+				"Collection.Get(%q) with a refusing operator returned %q without an error, reference holds %q", string(key), string(v), string(want))
+		}
+		return
+	}
+	e.probe("get-refused-by-operator")
 }
 
 // doBatch builds and executes a batch, then advances the model.
